@@ -86,8 +86,10 @@ impl WorkerSummary {
         if st.converged {
             self.converged_runs += 1;
         }
-        self.schedule_hashes.insert(st.schedule_hash);
-        if st.nontrivial {
+        if self.schedule_hashes.len() < 100_000 {
+            self.schedule_hashes.insert(st.schedule_hash);
+        }
+        if st.nontrivial && self.nontrivial_hashes.len() < 100_000 {
             self.nontrivial_hashes.insert(st.schedule_hash);
         }
         for s in &st.states {
@@ -144,6 +146,7 @@ fn tmp_base(args: &[String]) -> PathBuf {
 pub fn run_one(tier: &str, check: &str, seed: u64, tmp: &Path, log: Option<&mut Vec<String>>) -> R<RunOutcome> {
     match tier {
         "t1" => with_runtime(t1::gen_::run_generated(seed, check, tmp, log)),
+        "t8" => crate::t8::run_generated(seed),
         other => Err(SimError::Harness(format!("unknown tier {other}"))),
     }
 }
@@ -166,6 +169,13 @@ pub fn run_list(
                 .map(|e| serde_json::from_value(e.clone()))
                 .collect::<Result<_, _>>()?;
             with_runtime(t1::gen_::run_events(seed, cfg, &evs, tmp, tag, log))
+        }
+        "t8" => {
+            let ops: Vec<crate::t8::Op> = events
+                .iter()
+                .map(|e| serde_json::from_value(e.clone()))
+                .collect::<Result<_, _>>()?;
+            crate::t8::execute(seed, &ops, config.clone())
         }
         other => Err(SimError::Harness(format!("unknown tier {other}"))),
     }
